@@ -161,6 +161,22 @@ func (g *GenPkg) emitWF(sb *strings.Builder, types []string, spec *SpecRef) {
 					name = name[i+1:]
 				}
 			}
+			if f[0] == "" && !strings.HasPrefix(texpr, "*") {
+				// an embedded allOf member with additional properties: in the one JSON object
+				// they share, a key cannot be both that member's extra and a declared
+				// property of the composition
+				for _, ef := range g.structFields(name) {
+					if ef[0] == "AdditionalProperties" && strings.HasPrefix(ef[1], "map[string]") {
+						if names := g.declaredJSONNames(t, map[string]bool{}); len(names) > 0 {
+							fmt.Fprintf(sb, "\tfor k := range v.%s.AdditionalProperties {\n", name)
+							for _, n := range uniqStrings(names) {
+								fmt.Fprintf(sb, "\t\tif k == %q {\n\t\t\treturn false\n\t\t}\n", n)
+							}
+							sb.WriteString("\t}\n")
+						}
+					}
+				}
+			}
 			if name == "AdditionalProperties" && strings.HasPrefix(texpr, "map[string]") {
 				names := g.declaredJSONNames(t, map[string]bool{})
 				if len(names) > 0 {
